@@ -15,8 +15,8 @@ const SWEEP_BATCH: u64 = 24;
 
 pub fn cases(tier: Tier) -> u64 {
     match tier {
-        Tier::Quick => 9000,
-        Tier::Thorough => 200000,
+        Tier::Quick => 24000,
+        Tier::Thorough => 400000,
         Tier::Tiny => 8,
     }
 }
@@ -131,9 +131,9 @@ pub fn run_case(env: &Env, ctx: &mut Ctx, idx: u64) {
             hooks::set_capacity(None);
             let again = parse(&base.text);
             hooks::set_capacity(Some(hooks::DEFAULT_CAPACITY));
-            let sig = if matches!(again, Ok(Ok(_))) { "K4" } else { "" };
-            let m = format!("a Verilog-1995 program inside `begin_keywords regions is rejected: {:?}", e);
-            ctx.violation("base-rejected", sig, &m, witness(&base.text, &m));
+            let (sig, note) = crate::memo_cfg::attribute(env, if matches!(again, Ok(Ok(_))) { "K4" } else { "" });
+            let m = format!("a Verilog-1995 program inside `begin_keywords regions is rejected: {:?}{}", e, note);
+            ctx.violation("base-rejected", &sig, &m, witness(&base.text, &m));
             return;
         }
         Ok(Ok(t)) => t,
@@ -175,13 +175,13 @@ pub fn run_case(env: &Env, ctx: &mut Ctx, idx: u64) {
         }
         Ok(r) => r,
     };
-    let memo_sig = |text: &str, want_ok: bool| -> &'static str {
+    let memo_sig = |text: &str, want_ok: bool| -> String {
         hooks::set_capacity(None);
         let again = parse(text);
         hooks::set_capacity(Some(hooks::DEFAULT_CAPACITY));
         match again {
-            Ok(r) if r.is_ok() == want_ok => "K4",
-            _ => "",
+            Ok(r) if r.is_ok() == want_ok => crate::memo_cfg::attribute(env, "K4").0,
+            _ => String::new(),
         }
     };
     if reserved_dir {
@@ -189,7 +189,7 @@ pub fn run_case(env: &Env, ctx: &mut Ctx, idx: u64) {
         if r.is_ok() {
             let msg = format!("{:?} is reserved under {} but is accepted at a {} name position", word, version, np.what);
             let sig = memo_sig(&m.text, false);
-            ctx.violation("reserved-word-accepted", sig, &msg, witness(&m.text, &msg));
+            ctx.violation("reserved-word-accepted", &sig, &msg, witness(&m.text, &msg));
         } else {
             ctx.count("reserved_word_rejected", 1);
         }
@@ -198,7 +198,7 @@ pub fn run_case(env: &Env, ctx: &mut Ctx, idx: u64) {
         match r {
             Err(e) => {
                 let msg = format!("{:?} is not reserved under {} (only in a later standard) but the source is rejected at a {} name position: {:?}", word, version, np.what, e);
-                let mut sig = memo_sig(&m.text, true).to_string();
+                let mut sig = memo_sig(&m.text, true);
                 if sig.is_empty() {
                     sig = format!("K5:{}:{}:{}", word, np.what, version);
                 }
